@@ -8,6 +8,8 @@ package coroutines_test
 // behaviour of the production AIO with its single sqlite worker.
 
 import (
+	"database/sql"
+	"path/filepath"
 	"testing"
 	"time"
 
@@ -89,11 +91,13 @@ type vfHarness struct {
 	aio    *vfAIO
 	system *system.System
 	now    int64
+	db     *sql.DB
 }
 
 func newVfHarness(t *testing.T) *vfHarness {
 	m := metrics.New(prometheus.NewRegistry())
-	store, err := sqlite.New(nil, m, &sqlite.Config{Size: 100, BatchSize: 100, Path: ":memory:", TxTimeout: 10 * time.Second})
+	dbPath := vfDBPath(t)
+	store, err := sqlite.New(nil, m, &sqlite.Config{Size: 100, BatchSize: 100, Path: dbPath, TxTimeout: 10 * time.Second})
 	if err != nil {
 		t.Fatal(err)
 	}
@@ -125,7 +129,12 @@ func newVfHarness(t *testing.T) *vfHarness {
 	s.AddOnRequest(t_api.CompleteTask, coroutines.CompleteTask)
 	s.AddOnRequest(t_api.HeartbeatTasks, coroutines.HeartbeatTasks)
 	s.AddOnRequest(t_api.SearchSchedules, coroutines.SearchSchedules)
-	return &vfHarness{t: t, api: a, aio: io, system: s}
+	db, err := sql.Open("sqlite3", dbPath)
+	if err != nil {
+		t.Fatal(err)
+	}
+	t.Cleanup(func() { _ = db.Close() })
+	return &vfHarness{t: t, api: a, aio: io, system: s, db: db}
 }
 
 var vfReqId int
@@ -169,3 +178,5 @@ func (h *vfHarness) run(now int64, res ...*vfResult) {
 	}
 	h.t.Fatal("request did not complete within 20 ticks")
 }
+
+func vfDBPath(t *testing.T) string { return filepath.Join(t.TempDir(), "resonate.db") }
